@@ -142,7 +142,7 @@ def sval(case, name):
     return name
 
 
-MIXED_SYMS = {"a": "a", "b": 1, "c": 2.5, "ab": "ab", "abc": 7, "x": "x", "y": 3, "zz": "zz", "d": 4, "e": "e"}
+MIXED_SYMS = {"a": "a", "b": 1, "c": 2.5, "ab": "", "abc": 0, "x": "x", "y": 3, "zz": "zz", "d": 4, "e": "e"}
 
 
 def yval(case, name):
